@@ -74,4 +74,235 @@ theorem triple_sum (lp lq li : List Nat) (a : Nat → R) (k : Nat → Nat → R)
     rw [mul_sumOver, mul_sumOver]
   rw [sumOver_congr _ _ _ h1, sumOver_comm]
 
+/-! ### point maps -/
+
+theorem flatMap_congr' {α β : Type} (l : List α) (f g : α → List β) (h : ∀ a ∈ l, f a = g a) :
+    l.flatMap f = l.flatMap g := by
+  induction l with
+  | nil => rfl
+  | cons a l ih =>
+    rw [List.flatMap_cons, List.flatMap_cons, h a (List.mem_cons_self ..),
+      ih (fun b hb => h b (List.mem_cons_of_mem _ hb))]
+
+/-- on `range n` every element stands at its own position -/
+theorem zipIdx_range_eq (n : Nat) : ∀ p ∈ (List.range n).zipIdx, p.1 = p.2 := by
+  intro p hp
+  have h := List.mem_zipIdx (x := p.1) (i := p.2) hp
+  have hlt : p.2 < (List.range n).length := by omega
+  have h3 := h.2.2
+  simp only [Nat.sub_zero] at h3
+  rw [h3, List.getElem_range]
+
+/-- the slice assignments of `map_space_to_points_impl` succeed iff every block is inside the arrays -/
+theorem pointMapImpl_ok (byPos : Bool) (S : Space R) (npts : Nat) (w : Nat → R)
+    (h : ∀ p ∈ S.support.zipIdx, slot byPos p.2 p.1 < S.support.length) :
+    pointMapImpl byPos S npts w = some (S.support.zipIdx.flatMap fun p => elemTriplets S npts w p.2 p.1) := by
+  unfold pointMapImpl
+  have : (S.support.zipIdx.all fun p => decide (slot byPos p.2 p.1 < S.support.length)) = true := by
+    rw [List.all_eq_true]
+    intro p hp
+    exact decide_eq_true (h p hp)
+  simp only [this, if_true]
+
+/-- `map_to_localised_space @ x` at the localised dof `nshape*pos+i` -/
+theorem loc_at (S : Space R) (x : Nat → R) (e pos i : Nat) (hp : (e, pos) ∈ S.support.zipIdx)
+    (hi : i < S.nshape) :
+    cooApply (locEntries S) x (S.nshape * pos + i) = S.mult e i * x (S.l2g e i) := by
+  unfold cooApply locEntries
+  rw [sumOver_flatMap]
+  have h1 : ∀ p ∈ S.support.zipIdx,
+      (sumOver ((List.range S.nshape).map fun i' =>
+          ({ row := S.nshape * p.2 + i', col := S.l2g p.1 i', val := S.mult p.1 i' } : Entry R))
+        fun t => if t.row = S.nshape * pos + i then t.val * x t.col else 0)
+      = if p.2 = pos then (fun p : Nat × Nat => S.mult p.1 i * x (S.l2g p.1 i)) p else 0 := by
+    intro p _
+    rw [sumOver_map]
+    have h2 : ∀ i' ∈ List.range S.nshape,
+        (if S.nshape * p.2 + i' = S.nshape * pos + i then S.mult p.1 i' * x (S.l2g p.1 i') else 0)
+        = if i' = i then (fun i' => if p.2 = pos then S.mult p.1 i' * x (S.l2g p.1 i') else 0) i' else 0 := by
+      intro i' hi'
+      have hi'' : i' < S.nshape := List.mem_range.mp hi'
+      by_cases hc : S.nshape * p.2 + i' = S.nshape * pos + i
+      · have := (idx_inj hi'' hi).mp hc
+        simp [this.1, this.2]
+      · by_cases h3 : i' = i
+        · have h4 : ¬ p.2 = pos := fun h => hc ((idx_inj hi'' hi).mpr ⟨h, h3⟩)
+          rw [if_neg hc, if_pos h3]
+          simp only [if_neg h4]
+        · rw [if_neg hc, if_neg h3]
+    rw [sumOver_congr _ _ _ h2, sumOver_range_delta, if_pos hi]
+  rw [sumOver_congr _ _ _ h1, sumOver_zipIdx_delta S.support 0 e pos hp]
+
+/-- `transform @ (map_to_localised_space @ x)` is the direct source map -/
+theorem composed_eq (S : Space R) (npts : Nat) (w : Nat → R) (x : Nat → R) (P : Nat) :
+    cooApply (S.support.zipIdx.flatMap fun p => elemTriplets S npts w p.2 p.1)
+      (cooApply (locEntries S) x) P = spaceToPoints S npts w x P := by
+  unfold spaceToPoints
+  rw [← sumOver_zipIdx_fst S.support 0]
+  unfold cooApply
+  rw [sumOver_flatMap]
+  apply sumOver_congr
+  intro p hp
+  unfold elemTriplets
+  rw [sumOver_flatMap]
+  apply sumOver_congr
+  intro i hi
+  rw [sumOver_map]
+  apply sumOver_congr
+  intro q _
+  have := loc_at S x p.1 p.2 i hp (List.mem_range.mp hi)
+  unfold cooApply at this
+  simp only [this]
+
+/-- the localised-dof value of `transformᵀ @ y` -/
+theorem tripletsT_at (S : Space R) (npts : Nat) (w : Nat → R) (y : Nat → R) (e pos i : Nat)
+    (hp : (e, pos) ∈ S.support.zipIdx) (hi : i < S.nshape) :
+    cooApplyT (S.support.zipIdx.flatMap fun p => elemTriplets S npts w p.2 p.1) y (S.nshape * pos + i)
+      = sumOver (List.range npts) fun q => S.basis e i q * w q * S.ie e * y (npts * e + q) := by
+  unfold cooApplyT
+  rw [sumOver_flatMap]
+  have h1 : ∀ p ∈ S.support.zipIdx,
+      (sumOver (elemTriplets S npts w p.2 p.1)
+        fun t => if t.col = S.nshape * pos + i then t.val * y t.row else 0)
+      = if p.2 = pos then
+          (fun p : Nat × Nat => sumOver (List.range npts) fun q =>
+            S.basis p.1 i q * w q * S.ie p.1 * y (npts * p.1 + q)) p
+        else 0 := by
+    intro p _
+    unfold elemTriplets
+    rw [sumOver_flatMap]
+    have h2 : ∀ i' ∈ List.range S.nshape,
+        (sumOver ((List.range npts).map fun q =>
+            ({ row := npts * p.1 + q, col := S.nshape * p.2 + i',
+               val := S.basis p.1 i' q * w q * S.ie p.1 } : Entry R))
+          fun t => if t.col = S.nshape * pos + i then t.val * y t.row else 0)
+        = if i' = i then
+            (fun i' => if p.2 = pos then sumOver (List.range npts) fun q =>
+              S.basis p.1 i' q * w q * S.ie p.1 * y (npts * p.1 + q) else 0) i'
+          else 0 := by
+      intro i' hi'
+      have hi'' : i' < S.nshape := List.mem_range.mp hi'
+      rw [sumOver_map]
+      by_cases hc : S.nshape * p.2 + i' = S.nshape * pos + i
+      · have := (idx_inj hi'' hi).mp hc
+        simp [this.1, this.2]
+      · by_cases h3 : i' = i
+        · have h4 : ¬ p.2 = pos := fun h => hc ((idx_inj hi'' hi).mpr ⟨h, h3⟩)
+          simp only [if_neg hc, if_pos h3, if_neg h4, sumOver_zero]
+        · simp only [if_neg hc, if_neg h3, sumOver_zero]
+    rw [sumOver_congr _ _ _ h2, sumOver_range_delta, if_pos hi]
+  rw [sumOver_congr _ _ _ h1, sumOver_zipIdx_delta S.support 0 e pos hp]
+
+/-- `map_to_localised_spaceᵀ @ (transformᵀ @ y)` is the direct target map -/
+theorem composedT_eq (S : Space R) (npts : Nat) (w : Nat → R) (y : Nat → R) (r : Nat) :
+    cooApplyT (locEntries S)
+      (cooApplyT (S.support.zipIdx.flatMap fun p => elemTriplets S npts w p.2 p.1) y) r
+      = pointsToSpace S npts w y r := by
+  unfold pointsToSpace
+  rw [← sumOver_zipIdx_fst S.support 0]
+  unfold cooApplyT locEntries
+  rw [sumOver_flatMap]
+  apply sumOver_congr
+  intro p hp
+  rw [sumOver_map]
+  apply sumOver_congr
+  intro i hi
+  have := tripletsT_at S npts w y p.1 p.2 i hp (List.mem_range.mp hi)
+  unfold cooApplyT at this
+  simp only [this]
+  by_cases hc : S.l2g p.1 i = r
+  · simp only [if_pos hc, mul_sumOver]
+  · simp only [if_neg hc, sumOver_zero]
+
+/-! ### linearity of the corrected evaluator in the kernel (gradient-based operators) -/
+
+theorem evalAll_dl (g gy : Nat → Nat → Nat → R) (n : Nat → Nat → R) (N : Nat) (v : Nat → R) (T : Nat)
+    (hg : ∀ k T P, gy k T P = - g k T P) :
+    evalAll (fun T P => sumOver (List.range 3) fun k => n k P * gy k T P) N v T
+      = - sumOver (List.range 3) fun k => evalAll (g k) N (fun P => n k P * v P) T := by
+  unfold evalAll
+  rw [← sumOver_neg]
+  have h1 : ∀ P ∈ List.range N,
+      (sumOver (List.range 3) fun k => n k P * gy k T P) * v P
+        = sumOver (List.range 3) fun k => - (g k T P * (n k P * v P)) := by
+    intro P _
+    rw [sumOver_mul]
+    apply sumOver_congr
+    intro k _
+    rw [hg]; ring
+  rw [sumOver_congr _ _ _ h1, sumOver_comm]
+  apply sumOver_congr
+  intro k _
+  rw [sumOver_neg]
+
+theorem nearField_dl (g gy : Nat → Nat → Nat → R) (n : Nat → Nat → R) (npts : Nat) (nbrs : Nat → List Nat)
+    (v : Nat → R) (T : Nat) (hg : ∀ k T P, gy k T P = - g k T P) :
+    nearField (fun T P => sumOver (List.range 3) fun k => n k P * gy k T P) npts nbrs v T
+      = - sumOver (List.range 3) fun k => nearField (g k) npts nbrs (fun P => n k P * v P) T := by
+  unfold nearField
+  rw [← sumOver_neg]
+  have h1 : ∀ σ ∈ nbrs (T / npts),
+      (sumOver (List.range npts) fun q =>
+        (sumOver (List.range 3) fun k => n k (npts * σ + q) * gy k T (npts * σ + q)) * v (npts * σ + q))
+      = sumOver (List.range 3) fun k => sumOver (List.range npts) fun q =>
+          - (g k T (npts * σ + q) * (n k (npts * σ + q) * v (npts * σ + q))) := by
+    intro σ _
+    rw [sumOver_comm]
+    apply sumOver_congr
+    intro q _
+    rw [sumOver_mul]
+    apply sumOver_congr
+    intro k _
+    rw [hg]; ring
+  rw [sumOver_congr _ _ _ h1, sumOver_comm]
+  apply sumOver_congr
+  intro k _
+  rw [← sumOver_neg]
+  apply sumOver_congr
+  intro σ _
+  rw [sumOver_neg]
+
+theorem evalAll_adl (g : Nat → Nat → Nat → R) (nT : Nat → Nat → R) (N : Nat) (v : Nat → R) (T : Nat) :
+    evalAll (fun T P => sumOver (List.range 3) fun k => nT k T * g k T P) N v T
+      = sumOver (List.range 3) fun k => evalAll (g k) N v T * nT k T := by
+  unfold evalAll
+  have h1 : ∀ P ∈ List.range N,
+      (sumOver (List.range 3) fun k => nT k T * g k T P) * v P
+        = sumOver (List.range 3) fun k => g k T P * v P * nT k T := by
+    intro P _
+    rw [sumOver_mul]
+    apply sumOver_congr
+    intro k _
+    ring
+  rw [sumOver_congr _ _ _ h1, sumOver_comm]
+  apply sumOver_congr
+  intro k _
+  rw [sumOver_mul]
+
+theorem nearField_adl (g : Nat → Nat → Nat → R) (nT : Nat → Nat → R) (npts : Nat) (nbrs : Nat → List Nat)
+    (v : Nat → R) (T : Nat) :
+    nearField (fun T P => sumOver (List.range 3) fun k => nT k T * g k T P) npts nbrs v T
+      = sumOver (List.range 3) fun k => nearField (g k) npts nbrs v T * nT k T := by
+  unfold nearField
+  have h1 : ∀ σ ∈ nbrs (T / npts),
+      (sumOver (List.range npts) fun q =>
+        (sumOver (List.range 3) fun k => nT k T * g k T (npts * σ + q)) * v (npts * σ + q))
+      = sumOver (List.range 3) fun k => sumOver (List.range npts) fun q =>
+          g k T (npts * σ + q) * v (npts * σ + q) * nT k T := by
+    intro σ _
+    rw [sumOver_comm]
+    apply sumOver_congr
+    intro q _
+    rw [sumOver_mul]
+    apply sumOver_congr
+    intro k _
+    ring
+  rw [sumOver_congr _ _ _ h1, sumOver_comm]
+  apply sumOver_congr
+  intro k _
+  rw [sumOver_mul]
+  apply sumOver_congr
+  intro σ _
+  rw [sumOver_mul]
+
 end BemppVerif.Lemmas.FmmPipeline
